@@ -17,7 +17,7 @@ theorem aggregate_safe (e : Ext) (nval : Int) (idx : Nat → Int)
     Safe (aggregate e nval idx) := by
   apply safe_of_wp (Q := fun _ => True)
   unfold aggregate
-  wp_run
+  wp_lin
   refine wp_forLoop (fun _ s => 0 ≤ s.2 ∧ s.2 < nval) _ _ _ (by simp; omega) ?_ ?_
   · intro j s hj0 hj1 hI
     unfold aggBody
@@ -35,7 +35,7 @@ theorem flathomogen_safe (e : Ext) (nval : Int) (idx : Nat → Int)
     Safe (flathomogen e nval idx) := by
   apply safe_of_wp (Q := fun _ => True)
   unfold flathomogen
-  wp_run
+  wp_lin
   refine wp_forLoop (fun i s => 0 ≤ s.2 ∧ s.2 ≤ i) _ _ _ (by simp) ?_ ?_
   · intro j s hj0 hj1 hI
     unfold homBody homFlush
@@ -53,7 +53,7 @@ theorem islin_safe (e : Ext) (nval npoints : Int) (lin : Nat → Bool)
     (h1 : nval ≤ e .data) (h2 : nval ≤ e .islin) : Safe (islin e nval npoints lin) := by
   apply safe_of_wp (Q := fun _ => True)
   unfold islin
-  wp_run
+  wp_lin
   refine wp_forLoop (fun i s => 0 ≤ s.2 ∧ s.2 ≤ i) _ _ _ (by simp) ?_ ?_
   · intro j s hj0 hj1 hI
     unfold islinBody
